@@ -708,6 +708,8 @@ def main(tier):
     import rollbackpair, llir, c19
     rep.attempt(rollbackpair.check, rep, llir.library('default'), c19.field_offsets('struct inflate_state', rollbackpair.IN_FIELDS + rollbackpair.OUT_FIELDS))
     rep.attempt(check_trailer_consume, rep)
+    import c11, llir
+    rep.attempt(c11.check_adler_range, rep, llir.library('default'))      # "accepting the trailer": the finalised Adler-32 halves are < 65521
     import probepure, llir
     rep.attempt(probepure.check_probe_pure, rep, llir.library('default'))
     rep.attempt(probepure.check_trunc_cmp, rep, llir.library('default'))
